@@ -219,6 +219,48 @@ theorem C17_unbracketed_counterexample :
   decide
 
 
+/-! ### `state.timeout` assigned at runtime -/
+
+/-- one segment: `acceptsV` is `accepts` -/
+theorem C17_acceptsV_single (sp : Spec) (recs : List Rec) : acceptsV [(sp, recs)] = accepts sp recs := rfl
+
+/-- a history without assignments to `timeout` runs as before, so every theorem above applies to it -/
+theorem C17_runV_const (cfg : Cfg) (h : List Op) (st : St) :
+    runV cfg (h.map .op) st = (cfg, run cfg h st) := by
+  induction h generalizing st with
+  | nil => rfl
+  | cons o rest ih =>
+    simp only [List.map_cons, runV, List.foldl_cons, stepV]
+    exact ih (step cfg st o)
+
+/-- the reading of `Timeout.exit`: it cancels whatever is armed in the model's slot and does not
+consult `timeout` — the result is the same under every assignment of timeouts (in particular after the
+state's timeout has been set to 0 while a timer is pending), and afterwards nothing is armed for
+(state, model).  The deadline a timer was armed with is its own (`Timer.deadline`), no later
+assignment to `timeout` touches it (`setTimeout` does not change the state at all). -/
+theorem C17_exit_cancels_whatever_is_armed (cfg : Cfg) (hk : ∀ m, cfg.key m = m) (m s s' v : Nat) (st : St)
+    (hty : Typed st) :
+    tExit (cfg.setTimeout s' v) m s st = tExit cfg m s st ∧ armedOf (tExit cfg m s st) s m = none := by
+  constructor
+  · rfl
+  · cases hr : st.runner s m with
+    | none =>
+      obtain ⟨h1, _, _, _, _⟩ := tExit_fields cfg hk m s st
+      simp [armedOf, h1, hr]
+    | some i =>
+      have q := tExit_quench cfg hk m s st i hr
+      rw [q.armedOf hty]
+      simp [hr]
+
+/-- two models 0 and 1 … the timeout of state 1 is switched off while model 0's timer is pending; model 0
+leaves before its deadline: nothing fires (the exit cancels the pending timer although `timeout` is 0 now) -/
+example : (runV c17Cfg [.op (.ev 0 0), .op (.tick []), .setT 1 0, .op (.ev 0 0), .op (.tick []), .op (.tick [])]
+    (St.init fun _ => 2)).2.log = [.exit 0 2, .enter 0 1, .tick, .exit 0 1, .enter 0 2, .tick, .tick] := by decide
+
+/-- what the acceptor says when the handler runs anyway -/
+example : acceptsV [(specOf c17Cfg, [.exit 0 2, .enter 0 1, .tick]),
+    (specOf (c17Cfg.setTimeout 1 0), [.exit 0 1, .enter 0 2, .tick, .fired 0 1, .firedEnd 0 1, .tick])] = false := by decide
+
 /-! ### the runner key
 
 `Cfg.key` is the key under which a state's `runner` dict files a model's timer; the code uses
